@@ -629,34 +629,50 @@ Fixpoint exec_action (cfg : config) (s : nat) (c : cache) (ss : sstate) (a : act
 
 Definition any_bad (d : list (nat * bool)) : bool := existsb snd d.
 
-(* How a deferred function ends, told by its id and flag: it returns; it panics (flag; a call of
-   ts.Fatalf outside a script line is a panic too); it calls FailNow / Fatal (ids 200..299) or Skip (ids
-   300..399) on the T of the subtest, both of which leave through runtime.Goexit. *)
-Inductive dend := DRet | DPanic | DFailNow | DSkipNow.
+(* How a deferred function ends, told by its id and flag: it returns; it panics (flag); it calls
+   FailNow / Fatal (ids 200..299) or Skip (ids 300..399) on the T of the subtest, both of which leave
+   through runtime.Goexit; it calls ts.Fatalf or ts.Check(err) (ids 400..499), which raises the internal
+   failNow panic. *)
+Inductive dend := DRet | DPanic | DFailNow | DSkipNow | DFatalf.
 Definition defer_end (d : nat * bool) : dend :=
   if snd d then DPanic
   else if Nat.leb 200 (fst d) && Nat.ltb (fst d) 300 then DFailNow
   else if Nat.leb 300 (fst d) && Nat.ltb (fst d) 400 then DSkipNow
+  else if Nat.leb 400 (fst d) && Nat.ltb (fst d) 500 then DFatalf
   else DRet.
 
 (* What the T of the subtest has recorded and how the goroutine is being left: the failed and skipped
-   marks, and whether a panic is on its way.  A panic raised while the goroutine is leaving through Goexit
-   goes on to the caller of the subtest function; a Goexit called while a panic is on its way aborts that
-   panic (the Go runtime: the deferred calls go on, the goroutine ends, nobody sees the panic). *)
-Record tmarks := { m_failed : bool; m_skipped : bool; m_panicking : bool }.
+   marks, and which panic is on its way, if any.  A panic raised while the goroutine is leaving through
+   Goexit, or while another panic is on its way, goes on in place of what was there; a Goexit called
+   while a panic is on its way aborts that panic (the Go runtime: the deferred calls go on, the
+   goroutine ends, nobody sees the panic).  run() wraps ts.deferred() in catchFailNow: when the chain is
+   through, a failNow panic that is still on its way is turned into t.FailNow(); any other panic goes
+   on to the caller of the subtest function. *)
+Inductive pkind := PNone | PReal | PFailNow.
+Record tmarks := { m_failed : bool; m_skipped : bool; m_panic : pkind }.
+Definition m_panicking (m : tmarks) : bool := match m_panic m with PReal => true | _ => false end.
 Definition marks_of (v : verdict) : tmarks :=
   match v with
-  | VPass | VStop => {| m_failed := false; m_skipped := false; m_panicking := false |}
-  | VFail | VSetupFail => {| m_failed := true; m_skipped := false; m_panicking := false |}
-  | VSkip => {| m_failed := false; m_skipped := true; m_panicking := false |}
-  | VPanic => {| m_failed := false; m_skipped := false; m_panicking := true |}
+  | VPass | VStop => {| m_failed := false; m_skipped := false; m_panic := PNone |}
+  | VFail | VSetupFail => {| m_failed := true; m_skipped := false; m_panic := PNone |}
+  | VSkip => {| m_failed := false; m_skipped := true; m_panic := PNone |}
+  | VPanic => {| m_failed := false; m_skipped := false; m_panic := PReal |}
   end.
 Definition after_defer (m : tmarks) (e : dend) : tmarks :=
   match e with
   | DRet => m
-  | DPanic => {| m_failed := m_failed m; m_skipped := m_skipped m; m_panicking := true |}
-  | DFailNow => {| m_failed := true; m_skipped := m_skipped m; m_panicking := false |}
-  | DSkipNow => {| m_failed := m_failed m; m_skipped := true; m_panicking := false |}
+  | DPanic => {| m_failed := m_failed m; m_skipped := m_skipped m; m_panic := PReal |}
+  | DFatalf => {| m_failed := m_failed m; m_skipped := m_skipped m; m_panic := PFailNow |}
+  | DFailNow => {| m_failed := true; m_skipped := m_skipped m; m_panic := PNone |}
+  | DSkipNow => {| m_failed := m_failed m; m_skipped := true; m_panic := PNone |}
+  end.
+(* defer catchFailNow(func() { ts.t.FailNow() }) around ts.deferred(): whether the source has it is the
+   generated constant deferred_failnow_caught; without it the failNow panic escapes RunT like any other *)
+Definition catch_failnow (caught : bool) (m : tmarks) : tmarks :=
+  match m_panic m with
+  | PFailNow => if caught then {| m_failed := true; m_skipped := m_skipped m; m_panic := PNone |}
+                else {| m_failed := m_failed m; m_skipped := m_skipped m; m_panic := PReal |}
+  | _ => m
   end.
 (* the verdict the marks amount to; the way the loop was left (stop, setup failure) is kept when the
    marks are still those it gave *)
@@ -666,8 +682,9 @@ Definition verdict_of_marks (v : verdict) (m : tmarks) : verdict :=
   else if m_skipped m then VSkip
   else match v with VStop => VStop | _ => VPass end.
 (* the deferred functions run most recent first: [d] is ts.deferred as a stack *)
-Definition defers_verdict (d : list (nat * bool)) (v : verdict) : verdict :=
-  verdict_of_marks v (fold_left after_defer (map defer_end d) (marks_of v)).
+Definition defers_verdict_gen (caught : bool) (d : list (nat * bool)) (v : verdict) : verdict :=
+  verdict_of_marks v (catch_failnow caught (fold_left after_defer (map defer_end d) (marks_of v))).
+Definition defers_verdict := defers_verdict_gen deferred_failnow_caught.
 
 (* setup() expands every entry name (ts.expand) and makes it absolute below the work directory
    (ts.MkAbs).  A name written $WORK/p is the file p of the work directory when $WORK is defined at
